@@ -85,14 +85,26 @@ func switchToParentThread(L *LState, nargs int, haserror bool, kill bool) {
 	}
 	L.G.CurrentThread = parent
 	L.Parent = nil
-	if !L.wrapped {
-		if haserror {
-			parent.Push(LFalse)
-		} else {
-			parent.Push(LTrue)
+	// The values may not fit into the resumer's registry. As in Lua ("too many results to
+	// resume") the coroutine has yielded (or finished) all the same: its side of the switch is
+	// completed, the values are dropped and the error is raised in the resumer afterwards.
+	var overflow interface{}
+	ptop := parent.reg.Top()
+	func() {
+		defer func() { overflow = recover() }()
+		if !L.wrapped {
+			if haserror {
+				parent.Push(LFalse)
+			} else {
+				parent.Push(LTrue)
+			}
 		}
+		L.XMoveTo(parent, nargs)
+	}()
+	if overflow != nil {
+		parent.reg.SetTop(ptop)
+		L.SetTop(L.GetTop() - intMin(nargs, L.GetTop()))
 	}
-	L.XMoveTo(parent, nargs)
 	if !kill && !haserror {
 		L.yieldNRet = L.currentFrame.NRet
 	}
@@ -102,6 +114,9 @@ func switchToParentThread(L *LState, nargs int, haserror bool, kill bool) {
 	L.reg.SetTop(L.reg.Top() - offset) // remove 'yield' function(including tailcalled functions)
 	if kill {
 		L.kill()
+	}
+	if overflow != nil {
+		panic(overflow)
 	}
 }
 
@@ -156,8 +171,8 @@ func threadRun(L *LState) {
 			} else {
 				lv = LString(fmt.Sprint(rcv))
 			}
-			L.closeUpvalues(0) // the thread is dead: detach closures from its registers
 			if parent := L.Parent; parent != nil {
+				L.closeUpvalues(0) // the thread is dead: detach closures from its registers
 				if L.wrapped {
 					L.Push(lv)
 					// the coroutine is dead and control is back in its resumer
